@@ -186,7 +186,8 @@ public:
 			// we round on the difference between (src_rbits - rbits) fraction bits
 			// and modulo arithmetic, lop of the high order integer bits
 			if constexpr (src_rbits > rbits) {
-				auto rawbb = a.bits();
+				// one extra bit when every source bit is shifted out: >>= by the full width would lose the sign
+				blockbinary<src_nbits + (src_rbits - rbits == src_nbits ? 1 : 0), bt> rawbb(a.bits());
 				bool roundUp = rawbb.roundingMode(src_rbits - rbits);
 				rawbb >>= src_rbits - rbits;
 				if (roundUp) ++rawbb;
@@ -201,7 +202,8 @@ public:
 			// we round on the difference between (src_rbits - rbits) fraction bits
 			// and modulo arithmetic, lop of the high order integer bits
 			if constexpr (src_rbits > rbits) {
-				auto rawbb = a.bits();
+				// one extra bit when every source bit is shifted out: >>= by the full width would lose the sign
+				blockbinary<src_nbits + (src_rbits - rbits == src_nbits ? 1 : 0), bt> rawbb(a.bits());
 				bool roundUp = rawbb.roundingMode(src_rbits - rbits);
 				rawbb >>= src_rbits - rbits;
 				if (roundUp) ++rawbb;
